@@ -556,6 +556,10 @@ let v_X := 0 in
 let v_Y := 0 in
 ((fadd F32 (fadd F32 (fmul F32 v_x (nth 0%nat v_a 0)) (fmul F32 v_y (nth 1%nat v_a 0))) (nth 2%nat v_a 0)), (fadd F32 (fadd F32 (fmul F32 v_x (nth 3%nat v_a 0)) (fmul F32 v_y (nth 4%nat v_a 0))) (nth 5%nat v_a 0))).
 
+(* decode:  isNaNOrInfinity *)
+Definition go_decode_isNaNOrInfinity (v_f : Z) :=
+((Z.land v_f 2139095040) =? 2139095040).
+
 (* render: Renderer CSel *)
 Definition go_render_Renderer_CSel (f_cSel : Z) :=
 f_cSel.
@@ -635,4 +639,4 @@ let v_x := (ffloor F64 (fadd F64 (fmul F64 (f32_to_f64 v_coord) 4634204016564240
 else (
 v_coord).
 
-(* translated: 67, untranslated: 0  *)
+(* translated: 68, untranslated: 0  *)
